@@ -25,6 +25,7 @@ type Opts struct {
 	Verbose  bool
 	Seed     int64
 	Trace    bool
+	ConcCap  int
 }
 
 // Sample is one terminated path written out for the evidence / for native validation.
@@ -118,6 +119,9 @@ func explore(m *Machine, fn *ssa.Function, o *Opts) *HarnessResult {
 				busy++
 				mu.Unlock()
 				r := newRun(m, s, p, o)
+				if o.BudgetS > 0 {
+					r.Deadline = t1.Add(time.Duration((o.BudgetS + 20) * float64(time.Second)))
+				}
 				q0, st0 := s.Queries, s.Time
 				sat0, unsat0, unk0 := s.NSat, s.NUnsat, s.NUnknown
 				s.Begin()
